@@ -4,27 +4,6 @@ inherited configuration (element size, growth rule), ledger, atomic refusal. -/
 namespace CC.ArraySized
 open CC CC.Gen
 
-/-- outcome of the two allocations of a builder: both granted (two more live blocks), or one
-refused (ledger as before) -/
-theorem two_allocs (m : Mem) :
-    (m.alloc.1 = true ∧ m.alloc.2.alloc.1 = true ∧ m.alloc.2.alloc.2.live = m.live + 2 ∧
-      m.alloc.2.alloc.2.fault = m.fault ∧ m.alloc.2.alloc.2.libc = m.libc) ∨
-    (m.alloc.1 = true ∧ m.alloc.2.alloc.1 = false ∧ MemSame m m.alloc.2.alloc.2.free) ∨
-    (m.alloc.1 = false ∧ MemSame m m.alloc.2) := by
-  cases h1 : m.alloc.1
-  · right; right
-    have e := Mem.alloc_fst_false m h1
-    exact ⟨rfl, e.1, e.2.1, e.2.2⟩
-  · have e1 := Mem.alloc_fst_true m h1
-    cases h2 : m.alloc.2.alloc.1
-    · right; left
-      have e2 := Mem.alloc_fst_false m.alloc.2 h2
-      have f := free_of_pos m.alloc.2.alloc.2 (by omega)
-      exact ⟨rfl, rfl, by rw [f.1, e2.1, e1.1]; omega, by rw [f.2.1, e2.2.1, e1.2.1], by rw [f.2.2, e2.2.2, e1.2.2]⟩
-    · left
-      have e2 := Mem.alloc_fst_true m.alloc.2 h2
-      exact ⟨rfl, rfl, by rw [e2.1, e1.1], by rw [e2.2.1, e1.2.1], by rw [e2.2.2, e1.2.2]⟩
-
 /-! ### subarray -/
 theorem subarray_inert (a : ArraySized) (b e : Nat) (m : Mem) (hr : e < b ∨ a.size ≤ e) :
     a.subarray b e m = (.errInvalidRange, none, m) := by
@@ -37,17 +16,17 @@ inherits element size and growth rule and satisfies the invariant (so it can gro
 produces no object and leaves the ledger as it was -/
 theorem subarray_spec (a : ArraySized) (b e : Nat) (m : Mem) (h : a.Inv) (hb : b ≤ e) (he : e < a.size) :
     (∃ s, a.subarray b e m = (.ok, some s, (a.subarray b e m).2.2) ∧ s.Inv ∧
-      s.abs = (a.abs.drop b).take (e - b + 1) ∧ s.dataLen = a.dataLen ∧ s.grow = a.grow ∧
+      s.abs = (a.abs.drop b).take (e - b + 1) ∧ s.dataLen = a.dataLen ∧ s.cfg = a.cfg ∧
       s.capacity = e - b + 1 ∧ s.size = e - b + 1 ∧
-      (a.subarray b e m).2.2.live = m.live + 2 ∧ (a.subarray b e m).2.2.fault = m.fault ∧
-      (a.subarray b e m).2.2.libc = m.libc) ∨
-    ((a.subarray b e m).1 = .errAlloc ∧ (a.subarray b e m).2.1 = none ∧ MemSame m (a.subarray b e m).2.2) := by
+      own (a.subarray b e m).2.2 a.triple = own m a.triple + 2 ∧ (a.subarray b e m).2.2.fault = m.fault ∧
+      Other a.triple m (a.subarray b e m).2.2) ∨
+    ((a.subarray b e m).1 = .errAlloc ∧ (a.subarray b e m).2.1 = none ∧ MemSame a.triple m (a.subarray b e m).2.2) := by
   obtain ⟨j1, j2, j3, j4, j5⟩ := h
   unfold subarray
   have : (decide (b > e) || decide (e ≥ a.size)) = false := by simp; omega
   rw [this]
   simp only [Bool.false_eq_true, if_false]
-  rcases two_allocs m with ⟨h1, h2, h3, h4, h5⟩ | ⟨h1, h2, h3⟩ | ⟨h1, h3⟩
+  rcases two_allocs m a.triple with ⟨h1, h2, h3, h4, h5⟩ | ⟨h1, h2, _, h3⟩ | ⟨h1, _, h3⟩
   · left
     rw [h1, h2]
     simp only [Bool.not_true, Bool.false_eq_true, if_false]
@@ -83,13 +62,13 @@ theorem subarray_spec (a : ArraySized) (b e : Nat) (m : Mem) (h : a.Inv) (hb : b
 /-! ### copy -/
 theorem copy_spec (a : ArraySized) (m : Mem) (h : a.Inv) :
     (∃ s, a.copy m = (.ok, some s, (a.copy m).2.2) ∧ s.Inv ∧ s.abs = a.abs ∧ s.dataLen = a.dataLen ∧
-      s.grow = a.grow ∧ s.capacity = a.capacity ∧ s.size = a.size ∧
-      (a.copy m).2.2.live = m.live + 2 ∧ (a.copy m).2.2.fault = m.fault ∧ (a.copy m).2.2.libc = m.libc) ∨
-    ((a.copy m).1 = .errAlloc ∧ (a.copy m).2.1 = none ∧ MemSame m (a.copy m).2.2) := by
+      s.cfg = a.cfg ∧ s.capacity = a.capacity ∧ s.size = a.size ∧
+      own (a.copy m).2.2 a.triple = own m a.triple + 2 ∧ (a.copy m).2.2.fault = m.fault ∧ Other a.triple m (a.copy m).2.2) ∨
+    ((a.copy m).1 = .errAlloc ∧ (a.copy m).2.1 = none ∧ MemSame a.triple m (a.copy m).2.2) := by
   obtain ⟨j1, j2, j3, j4, j5⟩ := h
   unfold copy
   dsimp only
-  rcases two_allocs m with ⟨h1, h2, h3, h4, h5⟩ | ⟨h1, h2, h3⟩ | ⟨h1, h3⟩
+  rcases two_allocs m a.triple with ⟨h1, h2, h3, h4, h5⟩ | ⟨h1, h2, _, h3⟩ | ⟨h1, _, h3⟩
   · left
     rw [h1, h2]
     simp only [Bool.not_true, Bool.false_eq_true, if_false]
@@ -179,22 +158,22 @@ predicate in source order, with the source's capacity, element size and growth r
 predicate sees every element once, first to last -/
 theorem filter_spec (a : ArraySized) (p : List Nat → Bool) (m : Mem) (h : a.Inv) (h0 : 0 < a.size) :
     (∃ s, a.filter p m = (.ok, a.abs, some s, (a.filter p m).2.2.2) ∧ s.Inv ∧ s.abs = a.abs.filter p ∧
-      s.dataLen = a.dataLen ∧ s.grow = a.grow ∧ s.capacity = a.capacity ∧
-      (a.filter p m).2.2.2.live = m.live + 2 ∧ (a.filter p m).2.2.2.fault = m.fault ∧
-      (a.filter p m).2.2.2.libc = m.libc) ∨
-    ((a.filter p m).1 = .errAlloc ∧ (a.filter p m).2.2.1 = none ∧ MemSame m (a.filter p m).2.2.2) := by
+      s.dataLen = a.dataLen ∧ s.cfg = a.cfg ∧ s.capacity = a.capacity ∧
+      own (a.filter p m).2.2.2 a.triple = own m a.triple + 2 ∧ (a.filter p m).2.2.2.fault = m.fault ∧
+      Other a.triple m (a.filter p m).2.2.2) ∨
+    ((a.filter p m).1 = .errAlloc ∧ (a.filter p m).2.2.1 = none ∧ MemSame a.triple m (a.filter p m).2.2.2) := by
   have hh := h
   obtain ⟨j1, j2, j3, j4, j5⟩ := h
   unfold filter
   rw [if_neg (by omega)]
   dsimp only
-  rcases two_allocs m with ⟨h1, h2, h3, h4, h5⟩ | ⟨h1, h2, h3⟩ | ⟨h1, h3⟩
+  rcases two_allocs m a.triple with ⟨h1, h2, h3, h4, h5⟩ | ⟨h1, h2, _, h3⟩ | ⟨h1, _, h3⟩
   · left
     rw [h1, h2]
     simp only [Bool.not_true, Bool.false_eq_true, if_false]
-    have hs := filterLoop_spec a p m.alloc.2.alloc.2 hh (a.capacity * a.dataLen) (Nat.le_refl _) a.size 0
+    have hs := filterLoop_spec a p ((m.allocT a.triple).2.allocT a.triple).2 hh (a.capacity * a.dataLen) (Nat.le_refl _) a.size 0
       (Buf.mk (a.capacity * a.dataLen)) 0 [] (by omega) (by simp) (Nat.le_refl _) (by simp [elems]) (by simp [elems])
-    generalize a.filterLoop p a.size 0 (Buf.mk (a.capacity * a.dataLen)) 0 m.alloc.2.alloc.2 [] = r at hs ⊢
+    generalize a.filterLoop p a.size 0 (Buf.mk (a.capacity * a.dataLen)) 0 ((m.allocT a.triple).2.allocT a.triple).2 [] = r at hs ⊢
     refine ⟨{ a with buf := r.1, size := r.2.1 }, ?_, ⟨j1, j2, by dsimp only; omega, by dsimp only; rw [hs.2.2.1]; exact Nat.le_refl _, j5⟩, hs.2.2.2.2, rfl, rfl, rfl, ?_, ?_, ?_⟩
     · rw [hs.2.1, hs.1]
     · rw [hs.1]; exact h3
@@ -212,7 +191,7 @@ theorem filter_spec (a : ArraySized) (p : List Nat → Bool) (m : Mem) (h : a.In
 /-! ### a derived array can grow -/
 /-- when the allocator grants the request and the array is not at its size limit, `add` succeeds -/
 theorem add_ok_of_alloc (a : ArraySized) (e : Buf Nat) (m : Mem) (h : a.Inv)
-    (he : e.length = a.dataLen) (hal : m.alloc.1 = true) (hc : ¬ a.AtLimit) :
+    (he : e.length = a.dataLen) (hal : (m.allocT a.triple).1 = true) (hc : ¬ a.AtLimit) :
     (a.add e m).1 = .ok ∧ (a.add e m).2.1.abs = a.abs ++ [e] := by
   rcases add_spec a e m h he with ⟨h1, _, h3, _⟩ | ⟨h1, _, _, _, h5, h6, _⟩
   · exact ⟨h1, h3⟩
